@@ -14,7 +14,7 @@ from smartquery.exceptions import ParserError
 from sqv.api import run_eval, prewarm, CACHED, api_count, api_reset
 from sqv.harness import c13
 
-DEC = [Decimal('0'), Decimal('1'), Decimal('2.5'), Decimal('-3'), Decimal('1.10')]
+DEC = [Decimal('0'), Decimal('1'), Decimal('2.5'), Decimal('-3'), Decimal('1.10'), Decimal('1E-7'), Decimal('1E+30'), Decimal('0E-7')]
 KN = ['int', 'bool', 'str', 'none', 'list', 'dict', 'decimal']
 
 
@@ -75,14 +75,15 @@ def _sym(v):
 
 def binop_step(kb: int, i1: int, i2: int, b1: bool, b2: bool, s1: str, s2: str, n1: int, n2: int, d1: int, d2: int) -> None:
     """
-    pre: 0 <= kb <= 6 and len(s1) <= 2 and len(s2) <= 2 and 0 <= n1 <= 2 and 0 <= n2 <= 2 and 0 <= d1 < 5 and 0 <= d2 < 5
+    pre: 0 <= kb <= 6 and len(s1) <= 2 and len(s2) <= 2 and 0 <= n1 <= 2 and 0 <= n2 <= 2 and 0 <= d1 < 8 and 0 <= d2 < 8
     post: True
     """
     hlib.enter(locals())
     op, ka = hlib.PARAM["op"], hlib.PARAM["ka"]
     if "kb" in hlib.PARAM:
         hlib.assume(kb == hlib.PARAM["kb"])
-    kb, d1, d2 = hlib.concrete(kb, 0, 6), hlib.concrete(d1, 0, 4), hlib.concrete(d2, 0, 4)
+    hlib.assume((d1 == 0 or ka == 6) and (d2 == 0 or kb == 6))
+    kb, d1, d2 = hlib.concrete(kb, 0, 6), hlib.concrete(d1, 0, 7), hlib.concrete(d2, 0, 7)
     if op in ('*', '**', '/'):
         # Decimal arithmetic on symbolic numbers is out of CrossHair's reach: numbers come from the concrete pool
         hlib.assume(ka not in (0, 1) and kb not in (0, 1))
@@ -105,12 +106,13 @@ def binop_step(kb: int, i1: int, i2: int, b1: bool, b2: bool, s1: str, s2: str, 
 
 def unary_step(ka: int, i1: int, b1: bool, s1: str, n1: int, d1: int) -> None:
     """
-    pre: 0 <= ka <= 6 and len(s1) <= 2 and 0 <= n1 <= 2 and 0 <= d1 < 5
+    pre: 0 <= ka <= 6 and len(s1) <= 2 and 0 <= n1 <= 2 and 0 <= d1 < 8
     post: True
     """
     hlib.enter(locals())
     op = hlib.PARAM["op"]
-    ka, d1 = hlib.concrete(ka, 0, 6), hlib.concrete(d1, 0, 4)
+    hlib.assume(d1 == 0 or ka == 6)
+    ka, d1 = hlib.concrete(ka, 0, 6), hlib.concrete(d1, 0, 7)
     a = _operand(ka, i1, b1, s1, n1, d1)
     node = UnaryOp(op, Stub([], 0, a))
     real, rexc = _run(lambda: node.eval(mkstate(0, 100)))
@@ -239,6 +241,9 @@ TEMPLATES = [
     "d2 = {'k': nn}\nd2['k'][zero].push(c)\nnn",
     "x = a\ng = y => x + y\nf = x => g(zero)\nf(b)",
     "len = v => a\nf = l => len(l)\n[f(nn), l | map(v => len(v)) | sum]",
+    "tri = n => zero if n <= zero else tri(n - one) + n\ntri(a)",
+    "twice = (f, v) => f(f(v))\ntwice(y => twice(z => z + y, one), a)",
+    "s + str(one) == str(s) + str(one)",
 ]
 if isinstance(hlib.PARAM, dict) and "t" in hlib.PARAM:
     prewarm(TEMPLATES[hlib.PARAM["t"]])
